@@ -69,7 +69,7 @@ def r_key_api(ctx):
         ctx.check(good, rule, 'item_leaf/get', il.loc(), 'get(Key::item(index, item))', 'reader::item_leaf does not read Key::item(index, item)')
         # Some(leaf) only for a Leaf node, the leaf of that very get
         oks = [(b, t) for b, k, t in paths.ret_assigns(il) if k == 'ok']
-        some = [t for b, t in oks if 'Some' in show(t)]
+        some = [t for b, t in oks if 'Some' in show(t) or paths.mentions_call(t, gets[0][0].bb if gets else -1)]
         ctx.check(bool(some) and all(gets and paths.mentions_call(t, gets[0][0].bb) for t in some), rule, 'item_leaf/returns-own-leaf', il.loc(),
                   'returns the leaf it fetched', 'reader::item_leaf returns something else than the fetched leaf')
 
@@ -250,8 +250,8 @@ def r_meta_items(ctx):
                             src = strip(cc.arg_term(it[1] - 1))
                 if src[0] == 'call':
                     for h in F.resolve_call(be.call_at(src[3])):
-                        scans = [(key_info(x.arg_term(2)) or (None,))[0] for x in h.calls() if 'prefix_iter' in x.callee]
-                        pushes = [show(x.arg_term(1)) for x in h.calls() if x.callee.endswith(('RoaringBitmap>::push', 'RoaringBitmap>::insert'))]
+                        scans = [(key_info(x.arg_term(2)) or (None,))[0] for hh in F.family(h) for x in hh.calls() if 'prefix_iter' in x.callee]
+                        pushes = [show(x.arg_term(1)) for hh in F.family(h) for x in hh.calls() if x.callee.endswith(('RoaringBitmap>::push', 'RoaringBitmap>::insert'))]
                         good = scans == ['p-item'] and any('unwrap_item' in p or '.item' in p for p in pushes)
                         why = 'items = ids of the Prefix::item(self.index) scan in `%s`' % h.path
             ctx.check(good, rule, '%s/metadata.items' % g.path, c.loc(), why, 'the id set published in the metadata of `%s` is not the live item scan (%s)' % (g.path, why))
